@@ -182,8 +182,7 @@ package badger
 //@ func sendKV
 //@   prop C05 C01
 //@   safety_off
-//@   calls_havoc
-//@   modifies *
+//@   modifies nothing
 //@   ghost resolved bool = false
 //@   ghostset after "kv, err := vctx.VersionedKeyValue(values)": resolved = true
 //@   assert at "ch <- errorableKV{nil, err}": resolved
